@@ -1211,7 +1211,9 @@ namespace grown
         std::vector<Live> live;
         { Live l; l.defined = true; l.obj = make_source(fam, pattern, l.ref); live.push_back(std::move(l)); }
         if(presort) live[0].obj->sort_now();
+        else live[0].defined = false;      // an unsorted source is only checked for its bookkeeping before the first operation (no lazy sort yet)
         bool ok = verify(live, "after growth");
+        live[0].defined = true;
         std::string chain;
         for(size_t s = 0; s < ops.size() && ok; ++s)
         {
@@ -1332,6 +1334,13 @@ int main(int argc, char** argv)
     for(int fam = 0; fam < 2; ++fam) for(int pattern = 0; pattern < 3; ++pattern) for(int presort = 0; presort < 2; ++presort)
       for(int op0 = 0; op0 < grown::G_NOPS; ++op0)
       {
+        if(!presort && (op0 == grown::G_WEAK || op0 == grown::G_LAYOUT))
+        {
+          // a Weak/Layout clone shares the index array: the lazy sort of either vector re-orders the layout of the other
+          // ("sharing relatives" in the sense of the property) - not generated for sources with a pending sort
+          c.excluded("Weak/Layout clone of a SparseVector with a pending lazy sort (shared index array is re-ordered by either vector)");
+          continue;
+        }
         if(!c.want()) continue;
         const std::string d = std::string("grown ") + (fam ? "SparseVectorBlocked<2>" : "SparseVector") + "(4000), " + grown::pattern_name(pattern) + (presort ? ", sorted first" : ", unsorted") + ", first op " + grown::gop_name[op0];
         c.desc([&] { return d; });
